@@ -535,6 +535,11 @@ def check_orientation_map(repo, res, fns):
                 return default_fill(v.body) and default_fill(v.orelse)
             if isinstance(v, ast.Call) and getattr(v.func, "id", None) == "dict" and len(v.args) == 1 and not v.keywords:
                 return default_fill(v.args[0])
+            if isinstance(v, ast.Call) and isinstance(v.func, ast.Name) and v.func.id in fn.module.functions:
+                # a helper of the module that builds the default: every return of it is the default fill
+                h = fn.module.functions[v.func.id]
+                rets = [x.value for x in ast.walk(h.node) if isinstance(x, ast.Return) and x.value is not None]
+                return bool(rets) and all(default_fill(x) for x in rets)
             return False
 
         for st in ast.walk(fn.node):
